@@ -2110,8 +2110,11 @@ impl<'a> CompileState<'a> {
                 .interface
                 .struct_defs
                 .get(&src_struct_type_name.inner)
-                .assume("identifier with a struct type has that struct already defined")
-                .map_err(|err| self.err(BugError(err)))?;
+                .ok_or_else(|| {
+                    // e.g. `envelope`, whose `struct Envelope` type need not be defined by the policy
+                    let note = format!("struct `{}` not defined", src_struct_type_name);
+                    self.err(NotDefined(note, src_var_name.span))
+                })?;
 
             for src_field_defn in src_field_defns {
                 // Don't resolve fields already in the base struct.
